@@ -145,6 +145,15 @@ CHECKS["C14"] = ("other",
     "Trusted: rustc front end/MIR, the extractor, the literal-flow extraction in rules/c14.py; nom's combinators (dependency).",
     "literal-set extraction over the resolved MIR (no execution)", "DESIGN.md §5 C14")
 
+CHECKS["C10"] = ("other",
+    "NOT that reported pointers resolve in the document or that positions match the file text (run-time facts). Decided necessary "
+    "conditions with a symbolic path algebra over both document loaders: list child i is converted with path parent/i (i the "
+    "enumeration index), the value under key k with parent/k and stored under k, scalars keep the incoming path; under the libyaml "
+    "loader every value takes its own mark (list elements and map values the value's mark, keys the key's mark); mark.line->line, "
+    "mark.column->col; with_location replaces only the location; extend_str appends '/'+part and keeps the location; Path values "
+    "are built only by Path's own constructors.",
+    TB % "c10", "symbolic path algebra via abstract interpretation of MIR (no execution)", "DESIGN.md §5 C10")
+
 NOT_APPLICABLE = {
 }
 
